@@ -88,16 +88,18 @@ def ofs_enum(name):
 def build_model(family, n, rng):
     """(model, sectors, info).  qc_* families: n spin orbitals = 2 * (n // 2) spatial orbitals."""
     from renormalizer.model import Model, h_qc
-    if family in ("qc_short", "qc_long"):
+    if family in ("qc_short", "qc_long", "qc_noqn"):
         k = n // 2
         h, e = F.physical_integrals(k, rng)
         sh, aseri = h_qc.int_to_h(h, e)
-        basis, terms = h_qc.qc_model(sh, aseri)
+        basis, terms = h_qc.qc_model(sh, aseri, conserve_qn=(family != "qc_noqn"))
         if family == "qc_long":
             terms = F.long_names(terms)
         model = Model(basis, terms)
         na = [(1, 1), (1, 0)] if k == 1 else ([(1, 1), (2, 1)] if k == 2 else [(2, 1), (1, 1), (2, 2)])
-        info = {"fermi": True, "symbols": "short" if family == "qc_short" else "long", "sh": sh, "aseri": aseri, "h": h, "eri": e}
+        if family == "qc_noqn":
+            na = [(0,)]         # no conserved particle numbers: one trivial sector, the occupation cannot be read from the labels
+        info = {"fermi": True, "symbols": "long" if family == "qc_long" else "short", "sh": sh, "aseri": aseri, "h": h, "eri": e}
         return model, [list(x) for x in na], info
     model, sectors, _ = F.hermitian_model(family, n, rng)
     return model, sectors, {"fermi": False, "symbols": None}
@@ -866,9 +868,11 @@ def enumerate_cases(tier, seed):
     for fam, sizes in fam_sizes:
         for n in sizes:
             cases.append(("swap", fam, n, False, seed, tier))
-    for fam in ("qc_short", "qc_long"):
+    for fam in ("qc_short", "qc_long", "qc_noqn"):
         for n in (2, 4, 6):
             for jw in (False, True):
+                if fam == "qc_noqn" and n == 6:
+                    continue
                 cases.append(("swap", fam, n, jw, seed, tier))
     # --- part 3
     seeds = [seed] if quick else [seed, seed + 1, seed + 2]
@@ -877,7 +881,7 @@ def enumerate_cases(tier, seed):
             for mtag in ("full", "trunc"):
                 for fam, n in (("spin", 4), ("spinqn", 4), ("vibronic", 4), ("spinqn", 3), ("vibronic", 3)) + ((("spin", 5), ("vibronic", 5)) if not quick else ()):
                     cases.append(("step", fam, n, ofs, False, mtag, False, s, tier))
-                for fam in ("qc_short", "qc_long"):
+                for fam in ("qc_short", "qc_long", "qc_noqn"):
                     for n in (4,) if quick else (4, 6):
                         for jw in (False, True):
                             cases.append(("step", fam, n, ofs, jw, mtag, False, s, tier))
@@ -890,9 +894,11 @@ def enumerate_cases(tier, seed):
                 cases.append(("evolve", fam, n, ofs, False, s, tier))
                 for regime in ("full", "trunc", "int"):
                     cases.append(("opt", fam, n, ofs, False, regime, s, tier))
-            for fam in ("qc_short", "qc_long"):
+            for fam in ("qc_short", "qc_long", "qc_noqn"):
                 for n in (4,) if quick else (4, 6):
                     for jw in (False, True):
+                        if fam == "qc_noqn" and not jw:
+                            continue
                         cases.append(("evolve", fam, n, ofs, jw, s, tier))
                         for regime in ("full", "trunc", "int"):
                             cases.append(("opt", fam, n, ofs, jw, regime, s, tier))
